@@ -318,6 +318,73 @@ def parse(smi):
         return None
 
 
+# ------------------------------------------------------------------------------------------------------------
+# HISTORIES: a fingerprint is a function of the CURRENT structure of the object, whatever was computed on it before.
+# An object is used (fingerprint calls), edited in place through the public API, and used again; the second use is judged by the same
+# oracles as a freshly built molecule (they read the atoms and bonds as they are now).  Edits: the isotope setter (Element.isotope: no
+# cache obligation in its contract), the charge / is_radical setters followed by flush_cache() (what their docstrings ask for), and the
+# structural operations add_atom / add_bond / delete_atom / delete_bond (which flush themselves).
+WARM_CALLS = ['m.linear_hash_set()', 'm.morgan_hash_set()', 'm.linear_bit_set()', 'm.morgan_bit_set()', 'm._fragments(1, 3)', 'm.linear_fingerprint()',
+              'm.morgan_fingerprint()', 'm.linear_hash_smiles(1, 2)', 'm.morgan_hash_set(2, 3)', 'm.linear_hash_set(2, 4, 0)']
+
+
+def history_edit(m, rng):
+    """one in-place edit of m through the public API; returns the Python statement that was executed (None: nothing applicable)"""
+    nums = list(m._atoms)
+    if not nums:
+        return None
+    kinds = ['isotope', 'isotope', 'isotope', 'charge', 'radical', 'add_atom', 'delete_bond', 'delete_atom', 'add_bond']
+    rng.shuffle(kinds)
+    for kind in kinds:
+        n = rng.choice(nums)
+        a = m._atoms[n]
+        if kind == 'isotope':
+            options = [i for i in sorted(a.isotopes_distribution) if i != a.isotope] + ([None] if a.isotope is not None else [])
+            if not options:
+                continue
+            stmt = f'm.atom({n}).isotope = {rng.choice(options)!r}'
+        elif kind == 'charge':
+            stmt = f'm.atom({n}).charge = {rng.choice([c for c in (-1, 0, 1, 2) if c != a.charge])}; m.flush_cache()'
+        elif kind == 'radical':
+            stmt = f'm.atom({n}).is_radical = {not a.is_radical}; m.flush_cache()'
+        elif kind == 'add_atom':
+            stmt = f'm.add_bond({n}, m.add_atom({rng.choice(["C", "N", "O", "F"])!r}), {rng.choice([1, 1, 2, 8])})'
+        elif kind == 'delete_bond':
+            if not m._bonds[n]:
+                continue
+            stmt = f'm.delete_bond({n}, {rng.choice(list(m._bonds[n]))})'
+        elif kind == 'delete_atom':
+            if len(nums) < 2:
+                continue
+            stmt = f'm.delete_atom({n})'
+        else:
+            free = [k for k in nums if k != n and k not in m._bonds[n]]
+            if not free:
+                continue
+            stmt = f'm.add_bond({n}, {rng.choice(free)}, {rng.choice([1, 2, 3, 8])})'
+        try:
+            exec(stmt, {'m': m})
+        except Exception:
+            continue                      # an edit the container refuses (valence checks etc.) is simply not part of the history
+        return stmt
+    return None
+
+
+def make_history(m, rng, n_edits=None):
+    """use the object, edit it in place, (use it, edit it) ...; returns the list of executed statements, [] when no edit applied"""
+    stmts = []
+    for _ in range(n_edits or rng.choice([1, 1, 2, 3])):
+        warm = rng.sample(WARM_CALLS, rng.choice([1, 2, 3]))
+        for w in warm:
+            exec(w, {'m': m})
+        e = history_edit(m, rng)
+        if e is None:
+            break
+        stmts += warm + [e]
+    return stmts if any('=' in x or 'add_' in x or 'delete_' in x for x in stmts) else []
+
+
+
 class RecSet(set):
     """records the order of the add() calls of _chains (installed as the module global `set` of linear.py)"""
 
@@ -531,6 +598,14 @@ def corr_molecules(ck):
     for i in range(30 if quick else 200):
         k = rng.choice([1, 2, 3, 4, 4, 5, 5, 6, 6, 7])
         mols.append((f'generated-graph:{i}:{k}', None, random_graph_mol(rng, k)))
+    # histories: the object was used, edited in place through the public API and is used again (the model is a function of the printed,
+    # current structure; identifiers and everything downstream are observed on the used object)
+    hist_src = [x for x in mols if x[0].startswith(('hand:', 'corpus:', 'generated-graph:')) and 0 < len(x[2]._atoms) <= 14]
+    for tag, smi, m0 in rng.sample(hist_src, min(10 if quick else 80, len(hist_src))):
+        m = m0.copy()
+        stmts = make_history(m, rng)
+        if stmts:
+            mols.append(('history:' + tag + ':' + '; '.join(stmts)[:200], None, m))
     per_mol = []
     for i, (tag, smi, m) in enumerate(mols):
         ck.count('molecules:' + tag.split(':')[0])
@@ -1206,11 +1281,11 @@ def smi_of(m, chain):
     return ''.join(s)
 
 
-def search_molecule(ck, tag, smi, m, rng, budget_params):
+def search_molecule(ck, tag, smi, m, rng, budget_params, rp=None):
     """the oracles of one molecule; an exception escaping from the fingerprint code on documented parameters is a
     counterexample as well"""
     try:
-        return search_molecule_(ck, tag, smi, m, rng, budget_params)
+        return search_molecule_(ck, tag, smi, m, rng, budget_params, rp)
     except Exception as e:
         import traceback
         tb = traceback.format_exc().strip().split('\n')
@@ -1221,9 +1296,9 @@ def search_molecule(ck, tag, smi, m, rng, budget_params):
         return 0
 
 
-def search_molecule_(ck, tag, smi, m, rng, budget_params):
+def search_molecule_(ck, tag, smi, m, rng, budget_params, rp=None):
     """returns number of oracle evaluations"""
-    rp = (f"from chython import smiles; m = smiles({smi!r}); " if smi else '')
+    rp = rp or (f"from chython import smiles; m = smiles({smi!r}); " if smi else '')
     adj = {n: list(nb) for n, nb in m._bonds.items()}
     n_eval = 0
     for lo, hi in budget_params:
@@ -1239,7 +1314,7 @@ def search_molecule_(ck, tag, smi, m, rng, budget_params):
             cx(ck, f'chains:{tag}:{lo}:{hi}', '_chains is not the set of simple paths with min..max atoms in one orientation',
                               {'molecule': tag, 'min_radius': lo, 'max_radius': hi}, {'not simple paths in range / duplicated': extra_, 'missing': missing},
                               f'{len(exp)} undirected simple paths', 'depth-first brute-force path enumerator',
-                              replay_py=rp + f"print(sorted(m._chains({lo}, {hi})))" if smi else None)
+                              replay_py=rp + f"print(sorted(m._chains({lo}, {hi})))" if rp else None)
             continue
         # (2) _fragments groups them by direction-independent key; counts as in the oracle.  Which of the two spellings
         #     of a key the code keeps is not part of the property: keys are compared up to reversal (one spelling each)
@@ -1254,7 +1329,7 @@ def search_molecule_(ck, tag, smi, m, rng, budget_params):
         if got_u != cnt_u or len(got_u) != len(fr) or not stored_ok:
             cx(ck, f'fragments:{tag}:{lo}:{hi}', '_fragments keys / multiplicities differ from the path oracle (keys up to reversal), or a stored chain does not spell its key',
                               {'molecule': tag, 'min_radius': lo, 'max_radius': hi}, len(fr), len(cnt_u), 'brute-force fragment counter',
-                              replay_py=rp + f"print(m._fragments({lo}, {hi}))" if smi else None)
+                              replay_py=rp + f"print(m._fragments({lo}, {hi}))" if rp else None)
             continue
         cnt = {k: len(v) for k, v in fr.items()}        # the spellings the code chose, with the (verified) multiplicities
         # (3) linear_hash_set == {hash((*key, c)) : c < min(count, cap)}
@@ -1268,7 +1343,7 @@ def search_molecule_(ck, tag, smi, m, rng, budget_params):
                 cx(ck, f'hash_set:{tag}:{lo}:{hi}:{nbp}', 'linear_hash_set differs from {hash((*key, c)) for c < min(count, number_bit_pairs)}',
                                   {'molecule': tag, 'min_radius': lo, 'max_radius': hi, 'number_bit_pairs': nbp},
                                   f'{len(got_h)} hashes, {len(got_h ^ exp_h)} differ', f'{len(exp_h)} hashes', 'brute-force fragment counter + multiplicity cap',
-                                  replay_py=rp + f"print(sorted(m.linear_hash_set({lo}, {hi}, {nbp})))" if smi else None)
+                                  replay_py=rp + f"print(sorted(m.linear_hash_set({lo}, {hi}, {nbp})))" if rp else None)
                 continue
             k = rng.choice([1, 3, 6, 8, 10, 12, 16, 20])
             length = 2 ** k
@@ -1282,7 +1357,7 @@ def search_molecule_(ck, tag, smi, m, rng, budget_params):
                                   'linear_bit_set is not the union of the log2(length)-bit windows of the hashes / index out of range',
                                   {'molecule': tag, 'args': [lo, hi, length, nab, nbp]}, sorted(bits - exp_b)[:5] + sorted(exp_b - bits)[:5],
                                   'windows (h // 2^(i*k)) % 2^k, i < active bits', 'arithmetic definition of the folding',
-                                  replay_py=rp + f"print(sorted(m.linear_bit_set({lo}, {hi}, {length}, {nab}, {nbp})))" if smi else None)
+                                  replay_py=rp + f"print(sorted(m.linear_bit_set({lo}, {hi}, {length}, {nab}, {nbp})))" if rp else None)
             if length <= 4096:
                 fp = m.linear_fingerprint(lo, hi, length, nab, nbp)
                 if len(fp) != length or set(int(i) for i in fp.nonzero()[0]) != bits or int(fp.max(initial=0)) > 1:
@@ -1298,7 +1373,7 @@ def search_molecule_(ck, tag, smi, m, rng, budget_params):
             if got_m != exp_m:
                 cx(ck, f'morgan:{tag}:{lo}:{hi}', 'morgan_hash_set differs from the iterated neighbourhood identifiers of the requested radii',
                                   {'molecule': tag, 'min_radius': lo, 'max_radius': hi}, len(got_m ^ exp_m), 0, 'recursive neighbourhood hasher',
-                                  replay_py=rp + f"print(sorted(m.morgan_hash_set({lo}, {hi})))" if smi else None)
+                                  replay_py=rp + f"print(sorted(m.morgan_hash_set({lo}, {hi})))" if rp else None)
             k = rng.choice([1, 4, 10, 11, 16])
             nab = rng.choice([1, 2, 3, 4])
             bits = m.morgan_bit_set(lo, hi, 2 ** k, nab)
@@ -1306,7 +1381,7 @@ def search_molecule_(ck, tag, smi, m, rng, budget_params):
             if bits != exp_b or any(not (0 <= x < 2 ** k) for x in bits):
                 cx(ck, f'morgan_bits:{tag}:{lo}:{hi}:{2 ** k}:{nab}', 'morgan_bit_set is not the union of the windows of the hashes / index out of range',
                                   {'molecule': tag, 'args': [lo, hi, 2 ** k, nab]}, sorted(bits ^ exp_b)[:8], 'windows', 'arithmetic definition of the folding',
-                                  replay_py=rp + f"print(sorted(m.morgan_bit_set({lo}, {hi}, {2 ** k}, {nab})))" if smi else None)
+                                  replay_py=rp + f"print(sorted(m.morgan_bit_set({lo}, {hi}, {2 ** k}, {nab})))" if rp else None)
     # (4b) atoms exchanged by an automorphism (brute force over all permutations, molecules of at most 7 atoms) have equal Morgan
     #      identifiers at every radius (the semantic characterisation C17_morgan_level_neighbourhood_invariant on the real code)
     if 2 <= len(adj) <= 7:
@@ -1552,6 +1627,7 @@ def search(ck, n_corpus, n_generated):
         # only parameters the docstrings allow (1 <= min <= max): what happens outside is fixed by the model / correspondence only
         params = rng.sample(RADII if small else [r for r in RADII if r[1] <= 5], 3)
         n_eval += search_molecule(ck, tag, smi, m, rng, params)
+    n_eval += search_histories(ck, rng, mols)
     known_witness(ck)
     wm = parse(KNOWN_SMILES)
     wm2 = wm.copy()
@@ -1562,6 +1638,44 @@ def search(ck, n_corpus, n_generated):
               not fails and fixed_lhs(wm, 1, 1, 4) == fixed_lhs(wm2, 1, 1, 4) and wm.linear_hash_smiles(1, 1) != wm2.linear_hash_smiles(1, 1), 'search', repr(fails[:5]))
     ck.extra['search_oracle_evaluations'] = n_eval
     ck.extra['search_molecules'] = len(mols)
+
+
+def search_histories(ck, rng, mols):
+    """used - edited in place - used again: the oracles of search_molecule on the edited OBJECT (not on a copy), and the same functions on
+    m.copy() (a fresh object with the same structure) must agree"""
+    n_eval = 0
+    quick = ck.tier == 'quick'
+    pick = [x for x in mols if x[0].startswith('hand:')] + rng.sample([x for x in mols if x[0].startswith('corpus:')], min(25 if quick else 300, sum(x[0].startswith('corpus:') for x in mols))) \
+        + [x for x in mols if x[0].startswith('generated-graph:')][:25 if quick else 300]
+    for tag, smi, m0 in pick:
+        m = m0.copy()
+        stmts = make_history(m, rng)
+        if not stmts:
+            continue
+        ck.count('search:history')
+        for st in stmts:
+            if '=' in st or 'add_' in st or 'delete_' in st:
+                ck.count('history edit:' + ('isotope' if '.isotope' in st else 'charge+flush' if '.charge' in st else 'radical+flush' if 'is_radical' in st
+                                           else st.split('(')[0].replace('m.', '')))
+        htag = 'history:' + tag + ':' + '; '.join(stmts)[:300]
+        rp = (f"from chython import smiles; m = smiles({smi!r}); " + '; '.join(stmts) + '; ') if smi else None
+        small = len(m._atoms) <= 10
+        params = rng.sample(RADII if small else [r for r in RADII if r[1] <= 4], 2)
+        n_eval += search_molecule(ck, htag, None, m, rng, params, rp=rp)
+        lo, hi = params[0]
+        fresh = m.copy()
+        ck.case(('history-vs-copy', htag, lo, hi))
+        n_eval += 1
+        for name, f in (('linear_hash_set', lambda x: x.linear_hash_set(lo, hi)), ('morgan_hash_set', lambda x: x.morgan_hash_set(lo, hi)),
+                        ('_atom_identifiers', lambda x: x._atom_identifiers), ('linear_bit_set', lambda x: x.linear_bit_set(lo, hi)),
+                        ('morgan_fingerprint', lambda x: x.morgan_fingerprint(lo, hi).tolist())):
+            if f(m) != f(fresh):
+                cx(ck, f'history-copy:{name}:{htag}', f'{name} of an object that was used, edited in place through the public API and used again differs from '
+                   f'{name} of its copy() (same structure, fresh object)', {'molecule': tag, 'history': stmts, 'args': [lo, hi]}, 'differs', 'identical',
+                   'copy() of the edited object', replay_py=(rp + f"print(m.{name}({lo}, {hi}) == m.copy().{name}({lo}, {hi}))") if rp and name != '_atom_identifiers' else None)
+                break
+    ck.extra['history_search_evaluations'] = n_eval
+    return n_eval
 
 
 def directed_search(ck, bad, by_tag):
